@@ -642,3 +642,88 @@ CONTRACTS = [CompositeToMaskImpl(), InvertToMask(), MultiOrToMask(), CompositeIn
              _opc('__and__', 'AndState'), _opc('__or__', 'OrState'), _opc('__xor__', 'XorState'), _opc('__invert__', 'InvertState'),
              _mode('ReplaceMode'), _mode('NewMode'), _mode('AndMode'), _mode('OrMode'), _mode('XorMode'), _mode('AndNotMode'),
              MemoizeWrapper(), MakeKey(), DataGetMask(), SubsetToMask(), MultiOrInit(), CombineMultiple()]
+
+
+class CombineData(FnContract):
+    """EditSubsetMode._combine_data: which combination rule is applied to which subset"""
+    property_ids = ('C01',)
+    target = "glue/core/edit_subset_mode.py:EditSubsetMode._combine_data"
+    title = ("with no edit subset, or in 'new' mode, a new group holding a copy of the state becomes the edit subset; otherwise the chosen rule "
+             "(override or current mode) is applied exactly once to every edit subset with the given state, whatever that subset currently selects")
+
+    def configs(self, tier):
+        out = []
+        for n in (0, 1, 2):
+            for mode in ('current', 'override', 'new-current', 'new-override'):
+                out.append(dict(edit=n, mode=mode, dc=True))
+        out.append(dict(edit=0, mode='current', dc=False))
+        return out
+
+    def inputs(self, cfg, P):
+        calls = []
+        NEW = PObj('NewMode')
+
+        def rule(tag):
+            f = PObj('mode:' + tag)
+            f.methods['__call__'] = lambda I, self_, s, st_: calls.append((tag, s, st_))
+            return f
+        cur, ovr = rule('current'), rule('override')
+        new_state = PObj('SubsetState', fields={'name': 'new'})
+        copy_of = PObj('SubsetState', fields={'name': 'copy-of-new'})
+        new_state.methods['copy'] = lambda I, self_: copy_of
+        # the edit subsets currently select "anything": their state is an opaque object (it may well be a bare, empty SubsetState)
+        subs = [PObj('SubsetGroup', fields={'subset_state': PObj('SubsetState', fields={'name': 'whatever-%d' % i})}) for i in range(cfg['edit'])]
+        created = []
+        dc = None
+        if cfg['dc']:
+            dc = PObj('DataCollection')
+
+            def new_group(I, self_, subset_state=None, **kw):
+                g = PObj('SubsetGroup', fields={'subset_state': subset_state})
+                created.append(g)
+                return g
+            dc.methods['new_subset_group'] = new_group
+        esm = PObj('EditSubsetMode', fields={'_edit_subset': PList(list(subs)), 'data_collection': dc,
+                                             '_mode': NEW if cfg['mode'] == 'new-current' else cur})
+        esm.methods['mode'] = ('__property__', lambda I, self_: self_.fields['_mode'])
+        esm.methods['edit_subset.setter'] = lambda I, self_, v: self_.fields.__setitem__('_edit_subset', v)
+        esm.methods['edit_subset'] = ('__property__', lambda I, self_: self_.fields['_edit_subset'])
+        st = St(calls=calls, esm=esm, subs=subs, created=created, new_state=new_state, copy_of=copy_of, cur=cur, ovr=ovr, NEW=NEW, dc=dc)
+        kw = {}
+        if cfg['mode'] == 'override':
+            kw['override_mode'] = ovr
+        if cfg['mode'] == 'new-override':
+            kw['override_mode'] = NEW
+        return Inputs([esm, new_state], kw, st=st)
+
+    def globals_(self, cfg, st):
+        def as_list(I, x):
+            return x if isinstance(x, PList) else PList([x])
+        # class names the body might consult: the edit subsets' states are plain SubsetState objects (the empty selection), the worst
+        # case for any special-casing on the kind of the current selection
+        g = {'NewMode': st.NEW, 'as_list': Builtin('as_list', as_list), 'RuntimeError': PType('RuntimeError'), 'SubsetState': PType('SubsetState')}
+        for nm in ('ReplaceMode', 'AndMode', 'OrMode', 'XorMode', 'AndNotMode'):
+            f = PObj('mode:' + nm)
+            f.methods['__call__'] = (lambda I, self_, s, st_, nm=nm: st.calls.append((nm, s, st_)))
+            g[nm] = f
+        return g
+
+    raises = {'RuntimeError': lambda cfg, st: not cfg['dc']}
+
+    def ensures(self, cfg, st, result):
+        creates = cfg['edit'] == 0 or cfg['mode'].startswith('new')
+        e = st.esm.fields['_edit_subset']
+        items = e.items if isinstance(e, PList) else None
+        if creates:
+            ok = len(st.created) == 1 and items is not None and len(items) == 1 and items[0] is st.created[0]
+            return [('a-new-group-becomes-the-edit-subset', ok),
+                    ('it-holds-a-copy-of-the-state', ok and st.created[0].fields['subset_state'] is st.copy_of),
+                    ('no-rule-applied-to-existing-subsets', st.calls == [])]
+        want = 'override' if cfg['mode'] == 'override' else 'current'
+        return [('no-group-created', st.created == []),
+                ('edit-subset-unchanged', items is not None and len(items) == len(st.subs) and all(a is b for a, b in zip(items, st.subs))),
+                ('the-chosen-rule-applied-once-to-every-edit-subset-with-the-given-state',
+                 len(st.calls) == len(st.subs) and all(c[0] == want and c[1] is s and c[2] is st.new_state for c, s in zip(st.calls, st.subs)))]
+
+
+CONTRACTS.append(CombineData())
